@@ -3,8 +3,13 @@
 package searcher
 
 import (
+	"context"
+	"math"
+
 	rt "github.com/blevesearch/bleve/v2/internal/verifrt"
 	"github.com/blevesearch/bleve/v2/numeric"
+	"github.com/blevesearch/bleve/v2/search"
+	index "github.com/blevesearch/bleve_index_api"
 )
 
 // verifMatches: does the document value v (as indexed at the range's own shift) fall in term range r?
@@ -143,3 +148,84 @@ func VerifH_C07_Enumerate() { verifEnumerate(false) }
 // VerifH_C07_EnumerateCarry: the complementary family (ranges straddling a carry of two or more
 // 7-bit digits).
 func VerifH_C07_EnumerateCarry() { verifEnumerate(true) }
+
+// ---- NewNumericRangeSearcher: the bound arithmetic, observed through the dictionary probes ----
+
+type verifContainsDict struct {
+	v      int64 // the encoded value of one (symbolic) document
+	probed bool  // some probed term is one of the document's indexed terms
+	probes int
+}
+
+func (d *verifContainsDict) Contains(term []byte) (bool, error) {
+	d.probes++
+	ok, s := numeric.ValidPrefixCodedTermBytes(term)
+	if ok && s%4 == 0 {
+		d.probed = rt.Or(d.probed, rt.EqBytes(term, numeric.MustNewPrefixCodedInt64(d.v, uint(s))))
+	}
+	return false, nil
+}
+func (d *verifContainsDict) BytesRead() uint64 { return 0 }
+
+type verifContainsReader struct {
+	index.IndexReader
+	d *verifContainsDict
+}
+
+func (r *verifContainsReader) FieldDictContains(field string) (index.FieldDictContains, error) {
+	return r.d, nil
+}
+
+// VerifH_C07_RangeBounds: NewNumericRangeSearcher with symbolic min/max (including the infinities and
+// open ends) and symbolic inclusive flags, for bounds whose encodings lie in one aligned window of
+// 2^window_bits sortable values: a document with value x (any double but NaN and -0) has one of its
+// indexed terms probed if and only if x lies in the requested real interval.
+func VerifH_C07_RangeBounds() {
+	bits := uint(rt.Param("window_bits", 4))
+	var minP, maxP *float64
+	var incMinP, incMaxP *bool
+	minV, maxV := rt.F64("min"), rt.F64("max")
+	rt.Assume(rt.And(minV == minV, maxV == maxV, math.Float64bits(minV) != 1<<63, math.Float64bits(maxV) != 1<<63))
+	if rt.Choice("min_nil", 2) == 1 {
+		minV = math.Inf(-1)
+	} else {
+		minP = &minV
+	}
+	if rt.Choice("max_nil", 2) == 1 {
+		maxV = math.Inf(1)
+	} else {
+		maxP = &maxV
+	}
+	incMin, incMax := true, false // documented defaults
+	switch rt.Choice("inc_min", 3) {
+	case 1:
+		t := true
+		incMinP = &t
+	case 2:
+		f := false
+		incMinP, incMin = &f, false
+	}
+	switch rt.Choice("inc_max", 3) {
+	case 1:
+		t := true
+		incMaxP, incMax = &t, true
+	case 2:
+		f := false
+		incMaxP = &f
+	}
+	fmin, fmax := numeric.Float64ToInt64(minV), numeric.Float64ToInt64(maxV)
+	rt.Assume(fmin>>bits == fmax>>bits)
+	d := &verifContainsDict{v: rt.I64("v")}
+	x := numeric.Int64ToFloat64(d.v)
+	rt.Assume(rt.And(x == x, math.Float64bits(x) != 1<<63))
+	r := &verifContainsReader{d: d}
+	s, err := NewNumericRangeSearcher(context.Background(), r, minP, maxP, incMinP, incMaxP, "f", 1.0, search.SearcherOptions{})
+	rt.Assert(err == nil, "searcher construction succeeds")
+	_ = s
+	lo := rt.IteBool(incMin, x >= minV, x > minV)
+	hi := rt.IteBool(incMax, x <= maxV, x < maxV)
+	rt.Assert(d.probed == rt.And(lo, hi), "a document is a candidate iff its value lies in the requested interval")
+	rt.Cover(rt.And(lo, hi, d.probes >= 2), "inside")
+	rt.Cover(rt.And(minV == math.Inf(1), !incMin), "exclusive-plus-inf")
+	rt.Cover(rt.And(maxV == math.Inf(-1), !incMax), "exclusive-minus-inf")
+}
